@@ -84,6 +84,7 @@ type Results struct {
 	Queries        SolverStats      `json:"queries"`
 	AssertQueries  int64            `json:"assert_queries"`
 	CacheHits      int64            `json:"cache_hits"`
+	AssertsHeld    int64            `json:"asserts_held"`
 	Functions      map[string]int64 `json:"functions"`
 	InstrKinds     map[string]int64 `json:"instr_kinds"`
 	Intrinsics     map[string]int64 `json:"intrinsics"`
@@ -109,6 +110,7 @@ type Engine struct {
 	Stubs  map[string]*ssa.Function // qualified name -> replacement
 	Opaque map[string]bool          // package path -> calls return zero
 	NoInit map[string]bool
+	Embeds map[*ssa.Global][]byte
 	Cfg    Config
 
 	infoMu sync.Mutex
@@ -141,6 +143,7 @@ type Worker struct {
 	inInit   int
 	epoch    int64
 	res      *Results // worker-local counters merged at the end
+	coverSeen map[string]bool
 }
 
 // engine-level control flow (Go panics of these types unwind the interpreter)
@@ -185,6 +188,13 @@ type Path struct {
 	objN      int
 	afterFunc []afterFuncRec
 	known     map[string]bool
+	concVals  map[string]uint64
+	pending   []pendAssert
+}
+
+type pendAssert struct {
+	cond *Term
+	id   string
 }
 
 // Run explores harness function fn.
@@ -208,7 +218,7 @@ func (e *Engine) Run(fn *ssa.Function) *Results {
 		wg.Add(1)
 		go func(id int) {
 			defer wg.Done()
-			w := &Worker{eng: e, id: id, globals: map[*ssa.Global]*Value{}, initDone: map[*ssa.Package]bool{}, res: newResults()}
+			w := &Worker{eng: e, id: id, globals: map[*ssa.Global]*Value{}, initDone: map[*ssa.Package]bool{}, res: newResults(), coverSeen: map[string]bool{}}
 			tr := ""
 			if e.Cfg.Transcript != "" {
 				tr = fmt.Sprintf("%s.%d.smt2", e.Cfg.Transcript, id)
@@ -249,6 +259,7 @@ func (e *Engine) mergeWorker(w *Worker) {
 	r.Decisions += s.Decisions
 	r.AssertQueries += s.AssertQueries
 	r.CacheHits += s.CacheHits
+	r.AssertsHeld += s.AssertsHeld
 	addCounts(r.Functions, s.Functions)
 	addCounts(r.InstrKinds, s.InstrKinds)
 	addCounts(r.Intrinsics, s.Intrinsics)
@@ -320,7 +331,7 @@ func (w *Worker) runPath(fn *ssa.Function, prefix []Decision) {
 	e := w.eng
 	w.epoch++
 	p := &Path{w: w, eng: e, prefix: prefix, ndCount: map[string]int{}, tags: map[string]*Term{},
-		known: map[string]bool{}, done: make(chan interface{}, 1), syncSt: map[*Value]*syncState{}, atomVals: map[*Value]Value{}}
+		known: map[string]bool{}, concVals: map[string]uint64{}, done: make(chan interface{}, 1), syncSt: map[*Value]*syncState{}, atomVals: map[*Value]Value{}}
 	w.solver.BeginPath()
 	p.clock = p.freshVar("clock", 64)
 	// keep the clock well inside the positive int64 range so that deadline
@@ -338,6 +349,7 @@ func (w *Worker) runPath(fn *ssa.Function, prefix []Decision) {
 			<-main.resume
 			main.callFn(nil, fn, nil, nil)
 			// a harness that returns normally ends the path
+			p.flushAsserts()
 			pv = nil
 		}()
 		if pv == nil {
@@ -551,6 +563,76 @@ func (p *Path) concretize(t *Term) uint64 {
 	if t.Op == OpConst {
 		return t.Val
 	}
+	k := t.Key()
+	if k != "" {
+		if v, ok := p.concVals[k]; ok {
+			return v
+		}
+	}
+	v := p.concretize1(t)
+	if k != "" {
+		p.concVals[k] = v
+	}
+	return v
+}
+
+// concretizeN forks over the feasible values among 0..n-1 of t (t is known to
+// be < n); unlike concretize it leaves no trailing infeasible alternative.
+func (p *Path) concretizeN(t *Term, n int) uint64 {
+	if t.Op == OpConst {
+		return t.Val
+	}
+	k := t.Key()
+	if k != "" {
+		if v, ok := p.concVals[k]; ok {
+			return v
+		}
+	}
+	s := p.w.solver
+	var v uint64
+	if p.pos < len(p.prefix) {
+		d := p.prefix[p.pos]
+		if d.Kind != 'v' || d.Open {
+			panic(fmt.Sprintf("replay divergence: expected closed value decision at %d", p.pos))
+		}
+		p.pos++
+		p.trace = append(p.trace, d)
+		v = d.Val
+	} else {
+		if len(p.trace) >= p.eng.Cfg.MaxDecisions {
+			panic(boundExceeded{fmt.Sprintf("decisions per path > %d", p.eng.Cfg.MaxDecisions)})
+		}
+		p.pos++
+		var feas []uint64
+		for i := 0; i < n; i++ {
+			r := s.CheckWith(Eq(t, BV(t.W, uint64(i))))
+			if r == Unknown {
+				p.eng.noteInconclusive("feasibility query unknown (value kept)")
+			}
+			if r != Unsat {
+				feas = append(feas, uint64(i))
+			}
+		}
+		if len(feas) == 0 {
+			p.stop("infeasible")
+		}
+		for j := len(feas) - 1; j >= 1; j-- {
+			alt := make([]Decision, len(p.trace)+1)
+			copy(alt, p.trace)
+			alt[len(p.trace)] = Decision{Kind: 'v', Val: feas[j]}
+			p.eng.pushWork(alt)
+		}
+		v = feas[0]
+		p.trace = append(p.trace, Decision{Kind: 'v', Val: v})
+	}
+	s.Assert(Eq(t, BV(t.W, v)))
+	if k != "" {
+		p.concVals[k] = v
+	}
+	return v
+}
+
+func (p *Path) concretize1(t *Term) uint64 {
 	s := p.w.solver
 	var excl []uint64
 	if p.pos < len(p.prefix) {
@@ -747,8 +829,36 @@ func (p *Path) violation(kind, id, msg string, extra *Term) bool {
 	return true
 }
 
+// flushAsserts discharges the pending verifAssert obligations: one query for
+// their conjunction, individual queries only if that one is satisfiable.
+func (p *Path) flushAsserts() {
+	if len(p.pending) == 0 {
+		return
+	}
+	pend := p.pending
+	p.pending = nil
+	conj := TrueT
+	for _, a := range pend {
+		conj = And(conj, a.cond)
+	}
+	p.w.res.AssertQueries++
+	r := p.w.solver.CheckWith(Not(conj))
+	if r == Unsat {
+		p.w.res.AssertsHeld += int64(len(pend))
+		return
+	}
+	for _, a := range pend {
+		if p.violation("assert", a.id, "", Not(a.cond)) {
+			p.logf("FAIL %s", a.id)
+		} else {
+			p.w.res.AssertsHeld++
+		}
+	}
+}
+
 func (p *Path) reportPanic(th *Thread, gp *GoPanic) (ret interface{}) {
 	defer func() { ret = recover() }()
+	p.flushAsserts()
 	msg := th.panicString(gp)
 	id := "panic"
 	p.logf("PANIC %s", msg)
